@@ -235,6 +235,8 @@ structure Stable (T : Tables) (S : Sim) (scn : Nat → VarsAndFiles) (blk : Nat 
   blk_head : ∀ r, ∃ rest, blk r = .restart r :: rest
   blk_ok : ∀ r, ∀ l ∈ blk r, LineOK l
   blk_one : ∀ r, restartNbrs (blk r) = [(r : Int)]
+  /-- every directory entry matching `^output-(\d+)$` is a restart directory that exists -/
+  found : ∀ r ∈ discover S.entries, ∃ dir, S.restarts.find? (fun d => d.nbr == r) = some dir
 
 def blocks (blk : Nat → List Line) (rs : List Nat) : List Line := (rs.map blk).flatten
 
@@ -338,20 +340,17 @@ theorem mem_of_mem_dropLast' {α : Type} {x : α} : ∀ {l : List α}, x ∈ l.d
       · exact List.mem_cons.mpr (Or.inl h)
       · exact List.mem_cons_of_mem _ (ih h)
 
-theorem todo_found (S : Sim) (skip : Bool) (done : List Int) :
+theorem todo_found (S : Sim) (skip : Bool) (done : List Int)
+    (hf : ∀ r ∈ discover S.entries, ∃ dir, S.restarts.find? (fun d => d.nbr == r) = some dir) :
     ∀ r ∈ todo S skip done, ∃ dir, S.restarts.find? (fun d => d.nbr == r) = some dir := by
   intro r hr
-  have h1 : r ∈ sortNat (S.restarts.map (·.nbr)) := by
+  have h1 : r ∈ sortNat (discover S.entries) := by
     unfold todo at hr
     have := (List.mem_filter.mp hr).1
     cases skip with
     | false => simpa using this
     | true => exact mem_of_mem_dropLast' (by simpa using this)
-  have h2 : r ∈ S.restarts.map (·.nbr) := (mem_isort _ r _).mp h1
-  obtain ⟨d, hd, hdr⟩ := List.mem_map.mp h2
-  have : (S.restarts.find? (fun d => d.nbr == r)).isSome = true := by
-    rw [List.find?_isSome]; exact ⟨d, hd, by simp [hdr]⟩
-  exact Option.isSome_iff_exists.mp this
+  exact hf r ((mem_isort _ r _).mp h1)
 
 theorem blocks_append (blk : Nat → List Line) (a b : List Nat) : blocks blk (a ++ b) = blocks blk a ++ blocks blk b := by
   simp [blocks]
@@ -438,7 +437,7 @@ theorem iterationsCall_spec {T : Tables} {S : Sim} {scn : Nat → VarsAndFiles} 
     · simp [h1, B, h2, blocks, catOf]
     · simp [h, hread, B]
   have hP : ((P.map fun (n : Nat) => (n : Int)) == []) = (P == []) := by cases P <;> rfl
-  have hfound := todo_found S skip (P.map fun (n : Nat) => (n : Int))
+  have hfound := todo_found S skip (P.map fun (n : Nat) => (n : Int)) hS.found
   rw [hrs] at hfound
   have hloop := loop_spec hS rs hfound
     { fs := { fs with itfile := some (printLines B) }, st := (catOf B, none), stale := none, err := none }
@@ -552,7 +551,7 @@ theorem incremental_eq_fresh_lemma (T : Tables) (scn : Nat → VarsAndFiles) (bl
   exact ⟨rfl, rfl⟩
 
 def allR (S : Sim) (skip : Bool) : List Nat :=
-  if skip then (sortNat (S.restarts.map (·.nbr))).dropLast else sortNat (S.restarts.map (·.nbr))
+  if skip then (sortNat (discover S.entries)).dropLast else sortNat (discover S.entries)
 
 theorem todo_eq (S : Sim) (skip : Bool) (done : List Int) :
     todo S skip done = (allR S skip).filter (fun (r : Nat) => !done.contains (r : Int)) := by
@@ -688,7 +687,8 @@ theorem stable_of_check (T : Tables) (S : Sim)
     (hk : ∀ d ∈ S.restarts, keysOK (scanOf T S d.nbr))
     (hp : ∀ d ∈ S.restarts, (processRestart T S d (scanOf T S d.nbr) none).err = none)
     (hl : ∀ d ∈ S.restarts, (blkOf T S d.nbr).all lineOKb = true)
-    (h1 : ∀ d ∈ S.restarts, restartNbrs (blkOf T S d.nbr) = [(d.nbr : Int)]) :
+    (h1 : ∀ d ∈ S.restarts, restartNbrs (blkOf T S d.nbr) = [(d.nbr : Int)])
+    (hdisc : ∀ r ∈ discover S.entries, (S.restarts.find? (fun d => d.nbr == r)).isSome = true) :
     Stable T S (scanOf T S) (blkOf T S) := by
   have hfind : ∀ r dir, S.restarts.find? (fun d => d.nbr == r) = some dir → dir ∈ S.restarts ∧ dir.nbr = r := by
     intro r dir h
@@ -699,7 +699,7 @@ theorem stable_of_check (T : Tables) (S : Sim)
     constructor
     · simp [scanOf, filesOf, h, scanContent, globH5]
     · simp [blkOf, h]
-  refine ⟨fun _ _ _ => rfl, ?_, ?_, ?_, ?_, ?_⟩
+  refine ⟨fun _ _ _ => rfl, ?_, ?_, ?_, ?_, ?_, fun r hr => Option.isSome_iff_exists.mp (hdisc r hr)⟩
   · intro r
     cases h : S.restarts.find? (fun d => d.nbr == r) with
     | none => rw [(hnone r h).1]; exact ⟨by simp, by simp⟩
@@ -732,7 +732,8 @@ theorem stable_of_check (T : Tables) (S : Sim)
 /-! ## snapshots: a directory to which restarts are appended -/
 
 /-- `S` with further restart directories appended -/
-def extend (S : Sim) (extra : List RestartDir) : Sim := { S with restarts := S.restarts ++ extra }
+def extend (S : Sim) (extra : List RestartDir) (ents : List Str) : Sim :=
+  { S with restarts := S.restarts ++ extra, entries := ents }
 
 theorem dget_append_some {κ ν : Type} [BEq κ] (A B : List (κ × ν)) (k : κ) (v : ν) (h : dget A k = some v) :
     dget (A ++ B) k = some v := by
@@ -742,12 +743,12 @@ theorem dget_append_some {κ ν : Type} [BEq κ] (A B : List (κ × ν)) (k : κ
   | none => simp [hf] at h
   | some kv => simpa [hf] using h
 
-theorem allFiles_extend (S : Sim) (extra : List RestartDir) :
-    allFiles (extend S extra) = allFiles S ++ allFiles { S with restarts := extra } := by
+theorem allFiles_extend (S : Sim) (extra : List RestartDir) (ents : List Str) :
+    allFiles (extend S extra ents) = allFiles S ++ allFiles { S with restarts := extra } := by
   simp [allFiles, extend]
 
-theorem dataCore_extend (S : Sim) (extra : List RestartDir) (fnd : Option (Bool × Str))
-    (h : (dataCore S fnd).2 = none) : dataCore (extend S extra) fnd = dataCore S fnd := by
+theorem dataCore_extend (S : Sim) (extra : List RestartDir) (ents : List Str) (fnd : Option (Bool × Str))
+    (h : (dataCore S fnd).2 = none) : dataCore (extend S extra ents) fnd = dataCore S fnd := by
   cases fnd with
   | none => rfl
   | some bf =>
@@ -758,17 +759,17 @@ theorem dataCore_extend (S : Sim) (extra : List RestartDir) (fnd : Option (Bool 
       cases hd : dget (allFiles S) f with
       | none => simp [dataCore, hd] at h
       | some keys =>
-        have hd' : dget (allFiles (extend S extra)) f = some keys := by
+        have hd' : dget (allFiles (extend S extra ents)) f = some keys := by
           rw [allFiles_extend]; exact dget_append_some _ _ _ _ hd
         simp only [dataCore, hd, hd']
 
-theorem dataLines_extend (T : Tables) (S : Sim) (extra : List RestartDir) (dir : RestartDir)
+theorem dataLines_extend (T : Tables) (S : Sim) (extra : List RestartDir) (ents : List Str) (dir : RestartDir)
     (vf : VarsAndFiles) (stale : Option (Bool × Str)) (h : (dataLines T S dir vf stale).err = none) :
-    dataLines T (extend S extra) dir vf stale = dataLines T S dir vf stale := by
+    dataLines T (extend S extra ents) dir vf stale = dataLines T S dir vf stale := by
   unfold dataLines at h ⊢
   simp only [] at h ⊢
-  have e1 : (extend S extra).simpath = S.simpath := rfl
-  have e2 : (extend S extra).simname = S.simname := rfl
+  have e1 : (extend S extra ents).simpath = S.simpath := rfl
+  have e2 : (extend S extra ents).simname = S.simname := rfl
   split
   · rfl
   · rename_i hv
@@ -777,49 +778,50 @@ theorem dataLines_extend (T : Tables) (S : Sim) (extra : List RestartDir) (dir :
     | error e => rfl
     | ok fnd =>
       simp only [hf] at h
-      simp only [dataCore_extend S extra fnd h]
+      simp only [dataCore_extend S extra ents fnd h]
 
-theorem processRestart_extend (T : Tables) (S : Sim) (extra : List RestartDir) (dir : RestartDir)
+theorem processRestart_extend (T : Tables) (S : Sim) (extra : List RestartDir) (ents : List Str) (dir : RestartDir)
     (vf : VarsAndFiles) (stale : Option (Bool × Str)) (h : (processRestart T S dir vf stale).err = none) :
-    processRestart T (extend S extra) dir vf stale = processRestart T S dir vf stale := by
+    processRestart T (extend S extra ents) dir vf stale = processRestart T S dir vf stale := by
   have hd : (dataLines T S dir vf stale).err = none := finishLines_err_none h
   unfold processRestart
-  rw [dataLines_extend T S extra dir vf stale hd]
+  rw [dataLines_extend T S extra ents dir vf stale hd]
   rfl
 
-theorem find?_extend (S : Sim) (extra : List RestartDir) (r : Nat) (dir : RestartDir)
+theorem find?_extend (S : Sim) (extra : List RestartDir) (ents : List Str) (r : Nat) (dir : RestartDir)
     (h : S.restarts.find? (fun d => d.nbr == r) = some dir) :
-    (extend S extra).restarts.find? (fun d => d.nbr == r) = some dir := by
+    (extend S extra ents).restarts.find? (fun d => d.nbr == r) = some dir := by
   simp [extend, List.find?_append, h]
 
-theorem scanOf_extend (T : Tables) (S : Sim) (extra : List RestartDir) (r : Nat) (dir : RestartDir)
+theorem scanOf_extend (T : Tables) (S : Sim) (extra : List RestartDir) (ents : List Str) (r : Nat) (dir : RestartDir)
     (h : S.restarts.find? (fun d => d.nbr == r) = some dir) :
-    scanOf T (extend S extra) r = scanOf T S r := by
-  simp only [scanOf, filesOf, find?_extend S extra r dir h, h]
+    scanOf T (extend S extra ents) r = scanOf T S r := by
+  simp only [scanOf, filesOf, find?_extend S extra ents r dir h, h]
   rfl
 
 /-- a snapshot is stable with respect to the scans and blocks of the final
 directory: restarts that are appended later do not change what an earlier
 restart contributes -/
-theorem stable_of_prefix (T : Tables) (S : Sim) (extra : List RestartDir)
-    (hfin : Stable T (extend S extra) (scanOf T (extend S extra)) (blkOf T (extend S extra)))
+theorem stable_of_prefix (T : Tables) (S : Sim) (extra : List RestartDir) (ents : List Str)
+    (hfin : Stable T (extend S extra ents) (scanOf T (extend S extra ents)) (blkOf T (extend S extra ents)))
     (hp : ∀ d ∈ S.restarts, S.restarts.find? (fun x => x.nbr == d.nbr) = some d ∧
-      (processRestart T S d (scanOf T S d.nbr) none).err = none) :
-    Stable T S (scanOf T (extend S extra)) (blkOf T (extend S extra)) := by
+      (processRestart T S d (scanOf T S d.nbr) none).err = none)
+    (hfS : ∀ r ∈ discover S.entries, ∃ dir, S.restarts.find? (fun d => d.nbr == r) = some dir) :
+    Stable T S (scanOf T (extend S extra ents)) (blkOf T (extend S extra ents)) := by
   have hfind : ∀ r dir, S.restarts.find? (fun d => d.nbr == r) = some dir → dir ∈ S.restarts ∧ dir.nbr = r := by
     intro r dir h
     exact ⟨List.mem_of_find?_eq_some h, by simpa using List.find?_some h⟩
-  refine ⟨?_, hfin.keys, ?_, hfin.blk_head, hfin.blk_ok, hfin.blk_one⟩
+  refine ⟨?_, hfin.keys, ?_, hfin.blk_head, hfin.blk_ok, hfin.blk_one, hfS⟩
   · intro r dir h
-    exact (scanOf_extend T S extra r dir h).symm
+    exact (scanOf_extend T S extra ents r dir h).symm
   · intro r dir h stale
     obtain ⟨hm, hr⟩ := hfind r dir h
-    have hs : scanOf T (extend S extra) r = scanOf T S r := scanOf_extend T S extra r dir h
+    have hs : scanOf T (extend S extra ents) r = scanOf T S r := scanOf_extend T S extra ents r dir h
     have hp0 : (processRestart T S dir (scanOf T S r) none).err = none := by
       have := (hp dir hm).2; rw [hr] at this; exact this
-    have hext := processRestart_extend T S extra dir (scanOf T S r) none hp0
-    have hblk : blkOf T (extend S extra) r = (processRestart T S dir (scanOf T S r) none).lines := by
-      simp only [blkOf, find?_extend S extra r dir h, hs, hext]
+    have hext := processRestart_extend T S extra ents dir (scanOf T S r) none hp0
+    have hblk : blkOf T (extend S extra ents) r = (processRestart T S dir (scanOf T S r) none).lines := by
+      simp only [blkOf, find?_extend S extra ents r dir h, hs, hext]
     rw [hs, hblk]
     exact processRestart_stale_indep T S dir _ hp0 stale
 
